@@ -756,3 +756,13 @@ Theorem C01_src_request_side_is_model :
 Proof. exact Struct_Tokenizer_Proofs.request_side_is_model. Qed.
 Print Assumptions C01_src_request_side_is_model.
 
+
+(* the public entry points hand the right flags, in the right order, to check_parameterised *)
+Theorem C01_src_entry_points_are_model :
+  forall (matches : rule -> bool) (pr : list N) (previously_matched_rule force_check_exceptions : bool) (b : blocker),
+  Struct_Check_Proofs.interp_entry matches pr CheckGen.plain_query_flags previously_matched_rule force_check_exceptions b
+  = Some (blocker_check matches pr b)
+  /\ Struct_Check_Proofs.interp_entry matches pr CheckGen.subset_query_flags previously_matched_rule force_check_exceptions b
+    = Some (blocker_check_p matches pr previously_matched_rule force_check_exceptions b).
+Proof. exact Struct_Check_Proofs.entry_points_are_model. Qed.
+Print Assumptions C01_src_entry_points_are_model.
